@@ -1216,6 +1216,18 @@ func (ex *Exec) specForm(st *State, name string, call *ast.CallExpr, sc *SpecCtx
 	case "isType":
 		v := ex.eval(st, call.Args[0], sc)
 		t := ex.resolveType(call.Args[1], sc)
+		if t != nil && v.Sh != nil && v.Sh.IsLeaf() && v.Sh.Leaf == "Int" {
+			if g, ok := ex.eng.cs.Ghosts["dynType"]; ok {
+				// a non-empty interface value (an object reference): its dynamic type is the ghost dynType(ref),
+				// which is written at allocation; objects that already existed have an unknown one
+				s0 := st
+				if sc != nil && sc.inOld {
+					s0 = sc.old
+				}
+				cur := ex.readLoc(s0, ex.ghostLoc(g, []*Val{{S: v.S}}))
+				return one(ex.boolVal(and("(not (= "+v.S+" 0))", eq(cur.S, fmt.Sprint(typeID(t))))))
+			}
+		}
 		if t == nil || v.Sh == nil || v.Sh.Kind != "any" {
 			ex.specErr("isType(v, T): v must be an `any` value and T a type")
 			return one(ex.boolVal("false"))
